@@ -88,6 +88,8 @@ def check(run):
 
     with R.as_rule('C14.payload'):
         _C01.alias(R)            # the Ping payload the Pong repeats is a private copy, not a view of the receive buffer
+        C03.maskonce(R)          # ... and is masked once: serialising the frame masks the payload in place, so a second
+                                 # to_bytes() (for a log line) sends the payload XOR the first key
 
 def _feed_loop(R, g, rd):
     for n in g.live_nodes():
